@@ -543,7 +543,7 @@ func (self Node) Index(i int) (v Node) {
 	if it.Err != nil {
 		return errNode(meta.ErrRead, "", it.Err)
 	}
-	if i >= it.size {
+	if i < 0 || i >= it.size {
 		v = errNode(meta.ErrInvalidParam, fmt.Sprintf("index %d exceeds list/set bound", i), nil)
 		goto ret
 	}
